@@ -184,7 +184,7 @@ def check_execution(acc, case, obs):
                                         "setting": setting}, observed=describe(backend, snap))
                 return None
             v, _ = gq.ref_apply(v, l, qi, followed)
-            outcomes.append(followed)
+            outcomes.append((core.jdump(l), followed))
             creg_ref[c] = followed
             # other classical registers untouched
             for j in range(nc):
@@ -206,7 +206,19 @@ def check_execution(acc, case, obs):
     if bad is not None:
         acc.violation("state", backend + ":final", bad, case, expected=sv.canon_ray(v, 6), observed=describe(backend, fin))
     acc.validated += 1
-    return tuple(outcomes), v
+    return canon_outcomes(outcomes), v
+
+
+def canon_outcomes(pairs):
+    """outcome record of one execution, independent of the order in which operations on disjoint registers were executed: measuring operations
+    are named by their letter and by their occurrence number among equal letters (equal letters share all registers, so their order is fixed)."""
+    seen = {}
+    out = []
+    for letter, b in pairs:
+        k = seen.get(letter, 0)
+        seen[letter] = k + 1
+        out.append((letter, k, int(b)))
+    return tuple(sorted(out))
 
 
 def state_matches(backend, data, v, n):
@@ -295,7 +307,8 @@ def check_case(case, acc, circuit_factory=None):
     if explore.capped:
         acc.caps_hit += 1
     if setting == "probabilistic" and seen_branches and init_idx is None and not acc.viol:
-        want = {o for o, p, v, c in gq.ref_branches(layout, program)}
+        meas = [core.jdump(l) for l in gq.unwrap_letters(program) if gq.is_measuring(l)]
+        want = {canon_outcomes(list(zip(meas, o))) for o, p, v, c in gq.ref_branches(layout, program)}
         if seen_branches != want:
             acc.violation("branches", backend + ":compile", "set-of-reachable-outcome-strings-differs", case,
                           expected=sorted(want), observed=sorted(seen_branches))
